@@ -74,13 +74,17 @@ SameHeader(k, m, r, e) ==
 PreOf(e) == IF "preabs" \in DOMAIN e THEN e.preabs ELSE NoHdrs
 OutOf(e) == IF "mwout" \in DOMAIN e THEN e.mwout ELSE e.resp
 Conforms(e) ==
-  LET pre   == PreOf(e)
+  LET pre0  == PreOf(e)
+      \* (the model writes Expose-Headers as one string, the driver projects it to token lists: a pre-set one is kept out of the
+      \* model's sight and compared separately)
+      pre   == [k \in DOMAIN pre0 \ {"ACEH"} |-> pre0[k]]
       model == Respond(sem, e.dbg, AbsReq(e), pre)
       real  == OutOf(e)
   IN /\ model.handled = (e.invoked = 0)
      /\ (model.handled => model.status = real.status)
-     /\ \A k \in DOMAIN model.hdrs \cup DOMAIN real.hdrs :
-           IF k \in DOMAIN pre /\ Get(model.hdrs, k) = pre[k] THEN Get(real.hdrs, k) = pre[k]
+     /\ \A k \in DOMAIN model.hdrs \cup DOMAIN real.hdrs \cup DOMAIN pre0 :
+           IF k = "ACEH" /\ k \notin DOMAIN model.hdrs THEN Get(real.hdrs, k) = Get(pre0, k)
+           ELSE IF k \in DOMAIN pre /\ Get(model.hdrs, k) = pre[k] THEN Get(real.hdrs, k) = pre[k]
            ELSE SameHeader(k, model.hdrs, real.hdrs, e)
 
 Names == Ev("Names") /\ UNCHANGED <<sem, pats, namesb, drift, stats>>
